@@ -752,3 +752,143 @@ Section B.
   Qed.
 
 End B.
+
+(** * Part C: records written at the same step by two runs agree (C12.3, second half) *)
+
+(** which observer caches are known to be equal in the two runs *)
+Record known := mkkn { kmo0 : bool; kyp : bool; kmo1 : bool; kcs : bool }.
+Definition kn0 : known := mkkn false false false false.
+Definition kstep (c : call) (kn : known) : known :=
+  match c with
+  | Variance false => mkkn true (kyp kn) (kmo1 kn) (kcs kn)
+  | UpdateYProj => mkkn (kmo0 kn) true (kmo1 kn) (kcs kn)
+  | Variance true => mkkn (kmo0 kn) (kyp kn) (kyp kn) (kcs kn)
+  | UpdateCSR => mkkn (kmo0 kn) (kyp kn) (kmo1 kn) true
+  | _ => kn
+  end.
+(** an append is fine when every cache its kept records read is known to be equal *)
+Definition kok (a : akind) (kn : known) : bool :=
+  match a with
+  | AGrid AtPS => true
+  | AGrid _ => kmo0 kn && kyp kn && kmo1 kn
+  | ACsr => kcs kn
+  | _ => true
+  end.
+(** conservative: after a conditional nothing is assumed known *)
+Fixpoint rec_chk (kn : known) (b : blk) : bool :=
+  match b with
+  | Done => true
+  | Seq c r => (match c with Append a => kok a kn | _ => true end) && rec_chk (kstep c kn) r
+  | Cond g t e r => negb (cadence_guard g) && rec_chk kn t && rec_chk kn e && rec_chk kn0 r
+  end.
+
+(** (before, output block, else, after) around the first top-level conditional on GOut *)
+Fixpoint split_out (b : blk) : option (blk * blk * blk * blk) :=
+  match b with
+  | Done => None
+  | Seq c r => match split_out r with Some (a, t, e, z) => Some (Seq c a, t, e, z) | None => None end
+  | Cond GOut t e r => Some (Done, t, e, r)
+  | Cond g t e r => match split_out r with Some (a, t', e', z) => Some (Cond g t e a, t', e', z) | None => None end
+  end.
+
+Section C.
+  Variable K : kern.
+  Notation st := (st K).
+  (** the CSR update of the radiation field object does not depend on what its buffers held before
+      (C18 proves this for the field model; here it is a hypothesis of the record theorem) *)
+  Hypothesis csr_free : forall (c c' : tCs K) (p : tP K), k_csrOf K c p = k_csrOf K c' p.
+
+  Definition agree (t : bool) (kn : known) (s1 s2 : st) : Prop :=
+    dynx K t s1 = dynx K t s2 /\ (kmo0 kn = true -> mo0 s1 = mo0 s2) /\ (kyp kn = true -> yp s1 = yp s2) /\
+    (kmo1 kn = true -> mo1 s1 = mo1 s2) /\ (kcs kn = true -> cs s1 = cs s2).
+
+  (** records kept for the comparison: not the phase-space records (written at different cadences), not
+      the RF-kick rows (flushed per output step, C19), the particle rows only when both runs track the same *)
+  Definition keep (t : bool) (r : rec K) : bool :=
+    match rdata r with RPS _ | RRF _ => false | RTracks _ => t | _ => true end.
+  Definition cmn (t : bool) (l : list (rec K)) : list (rec K) := filter (keep t) l.
+  Arguments cmn : simpl never.
+
+  Lemma agree_kn0 t (s1 s2 : st) : dynx K t s1 = dynx K t s2 -> agree t kn0 s1 s2.
+  Proof. unfold agree. cbn. intuition discriminate. Qed.
+
+  Lemma agree_step t kn c c1 c2 (s1 s2 : st) : shared c1 c2 -> agree t kn s1 s2 ->
+    agree t (kstep c kn) (exec nosig c1 c s1) (exec nosig c2 c s2).
+  Proof.
+    intros Hs (Hd & H0 & Hy & H1 & Hc). split; [apply dyn_closed; auto|].
+    unfold dynx, dyn in Hd. destruct s1, s2. cbn in *.
+    destruct t; inversion Hd; subst; clear Hd;
+      (destruct c as [| | |ax| | | | |a|m|m| | |m| |l]; cbn; auto;
+       try (destruct ax; cbn; repeat split; intros; auto; try (rewrite Hy by auto); auto; fail);
+       try (destruct a; cbn; auto; fail);
+       try (destruct m; cbn; try destruct (dynrf c1); try destruct (dynrf c2); cbn; auto; fail);
+       try (repeat split; intros; auto; fail)).
+  Qed.
+
+  Lemma agree_recs t kn a c1 c2 (s1 s2 : st) : agree t kn s1 s2 -> kok a kn = true ->
+    cmn t (recs c1 a s1) = cmn t (recs c2 a s2).
+  Proof.
+    intros (Hd & H0 & Hy & H1 & Hc) Hk. unfold dynx, dyn in Hd. destruct s1, s2. cbn in *.
+    destruct a as [[| | |]| | | | |]; cbn in *;
+      try (apply andb_true_iff in Hk; destruct Hk as [Hk K1]; apply andb_true_iff in Hk; destruct Hk as [K0 Ky];
+           rewrite (H0 K0), (Hy Ky), (H1 K1));
+      try (rewrite (Hc Hk));
+      destruct t; inversion Hd; subst; clear Hd; cbn; try reflexivity;
+      repeat match goal with |- context [if ?b then _ else _] => destruct b end; cbn; reflexivity.
+  Qed.
+
+  Lemma cmn_app t l1 l2 : cmn t (l1 ++ l2) = cmn t l1 ++ cmn t l2.
+  Proof. apply filter_app. Qed.
+
+  Lemma rec_chk_sound t c1 c2 b : shared c1 c2 -> forall kn (s1 s2 : st),
+    rec_chk kn b = true -> agree t kn s1 s2 ->
+    cmn t (emit nosig c1 b s1) = cmn t (emit nosig c2 b s2) /\
+    dynx K t (exec_blk nosig c1 b s1) = dynx K t (exec_blk nosig c2 b s2).
+  Proof.
+    intros Hs. induction b as [|c r IH|g tb IHt e IHe r IHr]; intros kn s1 s2 Hc Ha; cbn in *.
+    - split; auto. destruct Ha; auto.
+    - apply andb_true_iff in Hc. destruct Hc as [Hk Hr].
+      destruct (IH _ _ _ Hr (agree_step t kn c c1 c2 s1 s2 Hs Ha)) as [E D]. split; auto.
+      rewrite !cmn_app, E. f_equal. destruct c; auto. eapply agree_recs; eauto.
+    - apply andb_true_iff in Hc. destruct Hc as [Hc Hr]. apply andb_true_iff in Hc. destruct Hc as [Hc He].
+      apply andb_true_iff in Hc. destruct Hc as [Hg Ht]. apply negb_true_iff in Hg.
+      destruct Ha as [Hd Hrest].
+      rewrite (gval_eq K g c1 c2 s1 s2 Hs (dynx_dyn K t _ _ Hd) Hg).
+      destruct (gval c2 s2 g).
+      + destruct (IHt _ _ _ Ht (conj Hd Hrest)) as [E D].
+        destruct (IHr _ _ _ Hr (agree_kn0 t _ _ D)) as [E' D']. split; auto. rewrite !cmn_app, E, E'. reflexivity.
+      + destruct (IHe _ _ _ He (conj Hd Hrest)) as [E D].
+        destruct (IHr _ _ _ Hr (agree_kn0 t _ _ D)) as [E' D']. split; auto. rewrite !cmn_app, E, E'. reflexivity.
+  Qed.
+
+  Lemma split_out_ok b : forall a t e z, split_out b = Some (a, t, e, z) -> b = bapp a (Cond GOut t e z).
+  Proof.
+    induction b as [|c r IH|g t0 IHt e0 IHe r IHr]; cbn; intros a t e z H; try discriminate.
+    - destruct (split_out r) as [[[[a' t'] e'] z']|]; try discriminate. inversion H; subst. cbn. f_equal. auto.
+    - destruct g; try (inversion H; subst; reflexivity);
+        (destruct (split_out r) as [[[[a' t'] e'] z']|]; try discriminate; inversion H; subst; cbn; f_equal; auto).
+  Qed.
+
+  (** the per-run obligation *)
+  Definition records_checker (p : prog) : bool :=
+    match split_out (p_body p) with
+    | Some (hd, ob, _, _) => is_some (chk false hd) && rec_chk kn0 ob
+    | None => false
+    end.
+
+  (** C12.3 second half: at every step, the records the output blocks of two runs (equal up to the
+      output schedule) would append agree on all kept datasets - whenever both runs do write at that
+      step, their records are equal field by field *)
+  Theorem common_records_equal p c1 c2 t : cadence_checker p = true -> records_checker p = true -> shared c1 c2 ->
+    forall hd ob el tl, split_out (p_body p) = Some (hd, ob, el, tl) ->
+    forall (s1 s2 : st), dynx K t s1 = dynx K t s2 -> forall n,
+      cmn t (emit nosig c1 ob (exec_blk nosig c1 hd (iter nosig c1 (p_body p) n (exec_blk nosig c1 (p_pre p) s1)))) =
+      cmn t (emit nosig c2 ob (exec_blk nosig c2 hd (iter nosig c2 (p_body p) n (exec_blk nosig c2 (p_pre p) s2)))).
+  Proof.
+    unfold records_checker. intros Hc Hr Hs hd ob el tl Hsp s1 s2 Hd n. rewrite Hsp in Hr.
+    apply andb_true_iff in Hr. destruct Hr as [Hh Ho]. destruct (is_some_inv _ Hh) as [ih Eh].
+    pose proof (cadence_independence_iter K p c1 c2 t Hc Hs s1 s2 Hd n) as Hi.
+    destruct (chk_sound K c1 c2 t hd Hs false ih _ _ Eh Hi) as [D _]. { intros X; discriminate. }
+    apply (rec_chk_sound t c1 c2 ob Hs kn0 _ _ Ho (agree_kn0 t _ _ D)).
+  Qed.
+End C.
